@@ -92,9 +92,13 @@ Definition balance (lport rport : N) (gws : gateways) : option (N * bool) :=
   match first_le (Z.of_N h) gws with
   | Some a => Some (a, true)
   | None =>
-      match nth_error gws (N.to_nat (h mod N.of_nat (length gws))) with
-      | Some (a, _) => Some (a, false)
-      | None => None
+      match gws with
+      | [] => None                            (* hash % 0 *)
+      | _ :: _ =>
+          match nth_error gws (N.to_nat (h mod N.of_nat (length gws))) with
+          | Some (a, _) => Some (a, false)
+          | None => None
+          end
       end
   end.
 
